@@ -243,7 +243,8 @@ theorem parse_render (wc wv : Nat) (s : Sec V) (h : WFSec wc wv s) :
   have hnm : NM.mapM firstWord = some (vars.map Var.name) := by
     rw [hNM, List.mapM_map]; exact mapM_nameLines vars
   simp only [hdrop1, hflat, List.mapM_map, mapM_widths, Option.bind_eq_bind, Option.bind_some,
-    List.length_map, hnames, hraw, hstride, hnm]
+    List.length_map, hnames, hraw, hnm]
+  rw [if_neg (by omega), hstride]
   rw [if_neg (by rw [hRlen]; simp)]
   have h := mapM_range (fun k => (R[k * L]?.bind fun a => firstNat a).bind fun a =>
       (List.mapM asVal (List.take (L - 1) (List.drop (k * L + 1) R)).flatten).bind fun a_1 => pure (a, a_1))
